@@ -39,10 +39,9 @@ M_Exact == Done => \A s \in Seeds : Exact(out1[s], Names, lay.limit) /\ Exact(ou
 M_QuotaKept == Done => \A s \in Seeds : QuotaKept(out1[s], Names, lay.stake, lay.prev, lay.limit, lay.pct)
 M_StakeOrdered == Done => \A s \in Seeds : /\ StakeOrdered(out1[s], Names, lay.stake, lay.prev, lay.limit, lay.pct)
                                            /\ StakeOrdered(out2[s], Names, lay.stake, lay.prev, lay.limit, lay.pct)
-M_TieBySeedOnly == Done => /\ TieBySeedOnly(out1, Seeds, Names, lay.stake, lay.prev, lay.limit, lay.pct)
-                           /\ TieBySeedOnly(out2, Seeds, Names, lay.stake, lay.prev, lay.limit, lay.pct)
-M_Relabel == Done => \A s \in Seeds :
-   RelabelInvariant(out1[s], Ord1, out2[s], Ord2, Names, lay.stake, lay.prev, lay.limit, lay.pct)
+M_TieBySeedOnly == Done => /\ TieBySeedOnly({out1[s] : s \in Seeds}, Names, lay.stake, lay.prev, lay.limit, lay.pct)
+                           /\ TieBySeedOnly({out2[s] : s \in Seeds}, Names, lay.stake, lay.prev, lay.limit, lay.pct)
+M_Relabel == Done => RelabelInvariant(out1, Ord1, out2, Ord2, Seeds, Names, lay.stake, lay.prev, lay.limit, lay.pct)
 
 \* one line per layout, for the replay on the real code
 GPrint == (lay # None /\ out1 = None) => PrintT(<<"BEHAVIOUR", ToJson(lay)>>)
